@@ -11,8 +11,14 @@
        int / hex / char literal lexes back to the same value even though the spelling may change (C09_int_roundtrip,
        C09_hex_roundtrip, C09_char_roundtrip), an identifier followed by a non-word character is that identifier
        (C09_ident_glue).
-   STATED, NOT PROVED: C09_full_statement - part (A), that the printers emit exactly the non-comment tokens of the
-   tree in order, needs the parser round trip (DESIGN C04); it is validated on the implementation by the check. *)
+   Part (A), the structural half, is PROVED below (sections 4 and 5) for every layout of every valid program without
+   comments or with leading comments only: the printers emit exactly the program's token spellings in order
+   (C09_structure(_lead)), so the formatted text lexes to the same kinds and literal values (C09_tokens(_lead),
+   C09_document(_lead)); and - section 6 - it PRODUCES THE SAME DIAGNOSTICS: the formatted text of a comment-free
+   syntactically valid program (well-typed or not) is analysed to the same tree and the same table, and its diagnostics
+   are the same messages in the same order on the same token-index ranges (C09_same_diagnostics).
+   STATED, NOT PROVED: C09_full_statement for programs with comments in gaps where the printer hoists or drops them
+   (C10's known findings); validated on the implementation by the check. *)
 From Coq Require Import String.
 From Spl Require Import Model.Format Model.Lexer Proofs.FormatProofs.
 From Spl Require Model.Doc.
@@ -422,3 +428,39 @@ Proof.
   destruct (C09_document_lead c09_cprog c09_cdoc toks ins ts H1 H2 H3 El H5) as (txt & toks' & E1 & E2 & _ & E4 & _).
   exists txt, toks'. split; [exact E1|]. split; [exact E2|]. rewrite E4. exact H6.
 Qed.
+
+(* ================================================================================================
+   6. "... and which produces the same diagnostics" (Proofs/FormatSameDiag.v)
+
+   Parser, table build and semantic analysis read token kinds only and address tokens by index; every diagnostic
+   lives in the tree as (token-index range, message).  For every layout of every syntactically valid comment-free
+   program - WELL-TYPED OR NOT, so with any number of semantic diagnostics - the formatted text is analysed to the same
+   tree and table, and AnalyzedSource::errors() returns the same messages in the same order; the byte range of each is
+   computed from the tokens with the same indices, which are the same tokens (same kinds and values, C09_document). *)
+From Spl Require Model.Table Model.Errors Proofs.FormatSameDiag.
+
+Theorem C09_same_diagnostics : forall p doc toks ins ts,
+  prog_ok p = true -> comment_free p = true -> aprog_valid p = true ->
+  lex doc = Some toks -> map tk toks = flatten p ++ [Eof] ->
+  exists txt d d',
+    formatted_text doc ins ts = Done txt /\
+    Errors.new_doc_res doc = Errors.ODone d /\ Errors.new_doc_res txt = Errors.ODone d' /\
+    map tk (Errors.d_toks d') = map tk (Errors.d_toks d) /\
+    Errors.d_ast d' = Errors.d_ast d /\ Errors.d_table d' = Errors.d_table d /\
+    Errors.tree_errors (Errors.d_ast d') = Errors.tree_errors (Errors.d_ast d) /\
+    forall l, Errors.doc_errors_res d = Table.ROk l -> exists l', Errors.doc_errors_res d' = Table.ROk l' /\ map snd l' = map snd l.
+Proof. exact FormatSameDiag.format_same_diagnostics. Qed.
+Print Assumptions C09_same_diagnostics.
+
+(* non-vacuity: an ill-typed comment-free program (`x` undeclared, `main` missing) keeps its two diagnostics *)
+Definition c09_bad_doc : text := str "proc f(){x:=1 ;}".
+Example C09_same_diagnostics_ex :
+  match Errors.new_doc_res c09_bad_doc, formatted_text c09_bad_doc true 4 with
+  | Errors.ODone d, Done txt =>
+      match Errors.new_doc_res txt, Errors.doc_errors_res d with
+      | Errors.ODone d', Table.ROk l => exists l', Errors.doc_errors_res d' = Table.ROk l' /\ map snd l' = map snd l /\ length l = 2%nat /\ txt <> c09_bad_doc
+      | _, _ => False
+      end
+  | _, _ => False
+  end.
+Proof. vm_compute. eexists. repeat split; try reflexivity. discriminate. Qed.
